@@ -98,7 +98,12 @@ def run_case(case):
     try:
         if c.get("est") in ("lr", "tree", "svm"):
             return run_real_learner(c)
-        tr, info = brewrun.run_brew(c)
+        if c.get("hooks"):       # phase 2: the same run with the guarded hooks of mokapot/_verif_trace.py switched on
+            from drivers import hooktrace
+            (tr, info), evs = hooktrace.traced_call(lambda: brewrun.run_brew(c))
+            tr["hook_events"] = evs
+        else:
+            tr, info = brewrun.run_brew(c)
         tr["enforced"] = bool(info["enforced"])
         return tr
     except Exception as e:
@@ -211,8 +216,12 @@ def run(ctx):
     ctx.require_actions(r, ["Split", "MakeTrain", "ReadChunk", "StartFit", "FinishFit", "SortModels", "PredictChunk", "Assemble"])
     ctx.phase("generation")
     cases = make_cases(ctx, rng)
+    for i, c in enumerate(cases):
+        if i % 25 == 0 and c.get("est") == "feat":
+            c["hooks"] = True
     ctx.phase("driving")
     traces = drive(ctx, cases)
+    hook_sources = [{"source": "driver case %d" % i, "events": t.pop("hook_events")} for i, t in enumerate(traces) if "hook_events" in t]
     nsched = sum(1 for c, t in zip(cases, traces) if c.get("schedule") and t.get("enforced"))
     ctx.cov["schedules_enforced"] = nsched
     ctx.cov["schedules_requested"] = sum(1 for c in cases if c.get("schedule"))
@@ -227,6 +236,10 @@ def run(ctx):
         v = verdicts[t["tid"]]
         if not v["accept"]:
             ctx.reject({"case": c, "trace": t}, v["failed"], signature(c, t))
+    ctx.phase("hook_traces")
+    from drivers import hooktrace
+    tests = hooktrace.REPO_TESTS[:1] if ctx.quick else hooktrace.REPO_TESTS[:4]
+    hooktrace.validate_events(ctx, hook_sources + hooktrace.traced_repo_tests(tests), "C02")
     ctx.phase("negative_controls")
     crng = np.random.default_rng(ctx.seed + 3)
     bad, names = [], {}
